@@ -146,7 +146,10 @@ class HelperModel:
         return self._ops_open + (self._ops_close if st["depth_open"] > 0 else [])
 
     def canon(self, st):
-        return st["canon"]
+        # No merging of histories: the implementation may keep hidden state outside the generator (seeded variant
+        # C04_1 kept the saved state in a module-level slot, so [enter a, enter b, exit] and [enter a] look the
+        # same from outside but have different futures).  Every operation sequence up to the depth is a state.
+        return (st["canon"], repr(st["hist"]))
 
     @staticmethod
     def _draw(gen, kind):
